@@ -38,4 +38,7 @@ def JacSpec (t : List (Stmt R)) (N : Nat) (indep dep : List Nat) (depOff indepOf
       rd out' (i * depOff + j * indepOff) = jacEntryFwd t N (indep.getD j 0) (dep.getD i 0)) ∧
   (∀ c, (∀ i j, i < dep.length → j < indep.length → c ≠ i * depOff + j * indepOff) → rd out' c = rd out c)
 
+/-- number of blocks of the OpenMP loops -/
+def nBlocks (W n : Nat) : Nat := (n + W - 1) / W
+
 end Adept.Tape
